@@ -578,7 +578,9 @@ def readAll (cfg : Cfg) : List Read → State → State
 
 def step (cfg : Cfg) (s : State) (r : Round) : State :=
   if s.crashed.isSome then s else
-  let s := { s with now := s.now + r.dt, fail := r.failSet.foldl (fun fl p => setFail fl p.1 p.2) s.fail }
+  -- a failure mode can only be given to a connection that exists when the round starts
+  let s := { s with now := s.now + r.dt,
+                    fail := (r.failSet.filter (·.1 ≤ s.nextUid)).foldl (fun fl p => setFail fl p.1 p.2) s.fail }
   -- only connections that are in the table when `select` is called can be reported readable
   let r := { r with reads := r.reads.filter (fun rd => (s.find rd.uid).isSome) }
   let s :=
